@@ -5,6 +5,7 @@
 import TrashVerif.Model.Put
 import TrashVerif.Proofs.C17Lemmas
 import TrashVerif.Proofs.C01
+import TrashVerif.Proofs.C16Eval
 namespace TrashVerif.Proofs.C07
 open TrashVerif Prog FS Bytes
 open TrashVerif.Proofs.C17 (run_bind run_read_bind run_pure sys_cases after)
@@ -462,5 +463,226 @@ theorem volumeOf_is_device_root (fs : FS) (cwd p : CPath) (hp : Plain fs p) (hn 
   unfold volumeOf abspath
   simp only [isAbs_toStr, if_true, normpath_toStr p hn]
   exact volumeOfAux_plain fs cwd p.length p rfl _ (Nat.lt_succ_of_le (toStr_length p)) hp hn
+
+/-! ### no dangling link on a plain path -/
+
+theorem resolve_plain_fl (fs : FS) (cwd q : CPath) (fl : Bool) (hp : Plain fs q) (hn : GoodNames q) :
+    resolve fs cwd (toStr q) fl = .ok q := by
+  obtain ⟨m, t, hroot⟩ := isDirAt_iff.1 (hp [] List.nil_prefix)
+  cases q with
+  | nil =>
+    have hc : comps (toStr []) = [[], []] := by decide
+    have h1 : ∀ f, walk fs f linkFuel [] [[], []] = .ok [] := by
+      intro f
+      rw [walk_skip _ _ _ _ _ hroot, walk_skip _ _ _ _ _ hroot, walk]
+    unfold resolve
+    rw [if_neg (by decide), isAbs_toStr, hc]
+    have htr : ¬ ((toStr ([] : CPath)).getLast? = some slash ∧ ¬ ((toStr ([] : CPath)).all (· = slash)) = true) := by
+      decide
+    simp only [htr, decide_false, Bool.or_false, if_true, h1, if_false]
+  | cons n rest =>
+    have hc := comps_toStr_cons n rest hn
+    obtain ⟨w, x, hw, hx⟩ := body_last (by simp) hn
+    have hs : toStr (n :: rest) = w ++ [x] := by rw [toStr_ne (by simp), hw]
+    have h1 : ∀ f, walk fs f linkFuel [] ([] :: n :: rest) = .ok (n :: rest) := by
+      intro f
+      rw [walk_skip _ _ _ _ _ hroot]
+      exact walk_plain fs f linkFuel (n :: rest) [] hp hn
+    unfold resolve
+    rw [if_neg (by rw [hs]; simp), isAbs_toStr, hc]
+    have htr : ¬ ((toStr (n :: rest)).getLast? = some slash ∧ ¬ ((toStr (n :: rest)).all (· = slash)) = true) := by
+      rw [hs]; simp [hx]
+    simp only [htr, decide_false, Bool.or_false, if_true, h1, if_false]
+
+theorem pExists_plain (fs : FS) (cwd q : CPath) (hp : Plain fs q) (hn : GoodNames q) :
+    pExists fs cwd (toStr q) = true := by
+  obtain ⟨m, t, hq⟩ := isDirAt_iff.1 (hp q List.prefix_rfl)
+  unfold pExists stat
+  rw [resolve_plain_fl fs cwd q true hp hn]
+  simp only [hq]; rfl
+
+/-- the component-boundary prefixes of the canonical spelling of `Q` spell the non-root ancestors-or-self of `Q` -/
+theorem mem_strPrefixes_toStr (Q : CPath) (hn : GoodNames Q) (q : Bytes) (hq : q ∈ strPrefixes (toStr Q)) :
+    ∃ k, q = toStr (Q.take k) := by
+  cases Q with
+  | nil => revert hq; have : strPrefixes (toStr []) = [] := by decide
+           rw [this]; intro h; cases h
+  | cons n rest =>
+    have hc : splitOn slash (toStr (n :: rest)) = [] :: n :: rest := comps_toStr_cons n rest hn
+    unfold strPrefixes at hq
+    simp only [hc] at hq
+    obtain ⟨k, _, hk⟩ := List.mem_filterMap.1 hq
+    cases k with
+    | zero => simp at hk
+    | succ j =>
+      refine ⟨j + 1, ?_⟩
+      split at hk
+      · cases hk
+      · have : q = joinWith [slash] (List.take (j + 1 + 1) ([] :: n :: rest)) := by
+          cases hk; rfl
+        rw [this, List.take_succ_cons, joinWith_body, List.nil_append, List.take_succ_cons, toStr_ne (by simp)]
+
+theorem GoodNames.take {Q : CPath} (hn : GoodNames Q) (k : Nat) : GoodNames (Q.take k) :=
+  fun m hm => hn m (List.mem_of_mem_take hm)
+
+theorem Plain.take {fs : FS} {Q : CPath} (hp : Plain fs Q) (k : Nat) : Plain fs (Q.take k) :=
+  fun r hr => hp r (hr.trans (List.take_prefix _ _))
+
+theorem danglingOnPath_plain (fs : FS) (cwd Q : CPath) (hp : Plain fs Q) (hn : GoodNames Q) :
+    danglingOnPath fs cwd (toStr Q) = none := by
+  have hf : (strPrefixes (toStr Q)).find? (fun q => ¬ pExists fs cwd q) = none := by
+    rw [List.find?_eq_none]
+    intro q hq
+    obtain ⟨k, rfl⟩ := mem_strPrefixes_toStr Q hn q hq
+    simp [pExists_plain fs cwd _ (hp.take k) (hn.take k)]
+  unfold danglingOnPath
+  rw [hf]
+
+/-! ### a dangling symbolic link on the way to a candidate trash directory -/
+
+theorem run_mkdirPStr_dangling (φ : Oracle) (cwd : CPath) (p : Bytes) (mode : Nat) (s : RunState) (e : Errno)
+    (hd : danglingOnPath s.fs cwd p = some e) : run φ (mkdirPStr cwd p mode) s = (.error e, s) := by
+  unfold mkdirPStr
+  rw [run_read_bind, hd]
+  rfl
+
+theorem no_dangling_link_mkdirP (φ : Oracle) (cwd : CPath) (p : Bytes) (mode : Nat) (s : RunState)
+    (hd : danglingOnPath s.fs cwd p = none) :
+    run φ (mkdirPStr cwd p mode) s = run φ (mkdirP (dirC s.fs cwd p) mode) s := by
+  unfold mkdirPStr
+  rw [run_read_bind, hd]
+
+theorem dangling_link_blocks_candidate_eq (φ : Oracle) (c : PutCfg) (path volume : Bytes) (cand : Candidate) (st : PutSt)
+    (s : RunState) (e : Errno)
+    (hsec : securityCheck s.fs c.cwd cand = none) (hgate : gateCheck s.fs c volume cand = none)
+    (hd : danglingOnPath s.fs c.cwd cand.path = some e) :
+    run φ (trashFileIn c path volume cand st) s = ((.error (.mkdirError e), st), s) := by
+  rw [trashFileIn, run_read_bind]
+  simp only [hsec, hgate]
+  rw [run_bind, run_mkdirPStr_dangling φ _ _ _ s e hd]
+  rfl
+
+theorem dangling_link_blocks_candidate (φ : Oracle) (c : PutCfg) (path volume : Bytes) (cand : Candidate) (st : PutSt)
+    (s : RunState) (e : Errno)
+    (hsec : securityCheck s.fs c.cwd cand = none) (hgate : gateCheck s.fs c volume cand = none)
+    (hd : danglingOnPath s.fs c.cwd cand.path = some e) :
+    let r := run φ (trashFileIn c path volume cand st) s
+    r.1 = (.error (.mkdirError e), st) ∧ r.2.fs = s.fs ∧ r.2.trace = s.trace ∧ r.2.hist = s.hist := by
+  intro r
+  have hr : r = ((.error (.mkdirError e), st), s) := dangling_link_blocks_candidate_eq φ c path volume cand st s e hsec hgate hd
+  rw [hr]
+  exact ⟨rfl, rfl, rfl, rfl⟩
+
+theorem dangling_link_next_candidate (φ : Oracle) (c : PutCfg) (path volume : Bytes) (cand : Candidate)
+    (rest : List Candidate) (reasons : List Reason) (st : PutSt) (s : RunState) (e : Errno)
+    (hsec : securityCheck s.fs c.cwd cand = none) (hgate : gateCheck s.fs c volume cand = none)
+    (hd : danglingOnPath s.fs c.cwd cand.path = some e) :
+    run φ (tryCandidates c path volume (cand :: rest) reasons st) s =
+      run φ (tryCandidates c path volume rest (.mkdirError e :: reasons) st) s := by
+  rw [tryCandidates, run_bind, dangling_link_blocks_candidate_eq φ c path volume cand st s e hsec hgate hd]
+
+/-- `trashFileIn` without the dangling-link guard (same as `trashFileInCanon` of Props/C07.lean) -/
+def trashFileInCanon (c : PutCfg) (path volume : Bytes) (cand : Candidate) (st : PutSt) :
+    Prog (Except Reason Bytes × PutSt) := do
+  let fs ← read
+  match securityCheck fs c.cwd cand with
+  | some r => pure (.error r, st)
+  | none =>
+  match gateCheck fs c volume cand with
+  | some r => pure (.error r, st)
+  | none =>
+  match ← mkdirP (dirC fs c.cwd cand.path) 0o700 with
+  | .error e => pure (.error (.mkdirError e), st)
+  | .ok () =>
+  let fs1 ← read
+  match ← mkdirP (dirC fs1 c.cwd (pjoin cand.path (b "files"))) 0o700 with
+  | .error e => pure (.error (.mkdirError e), st)
+  | .ok () =>
+  let fs2 ← read
+  match ← mkdirP (dirC fs2 c.cwd (pjoin cand.path (b "info"))) 0o700 with
+  | .error e => pure (.error (.mkdirError e), st)
+  | .ok () =>
+  let fs ← read
+  let filesC := dirC fs c.cwd (pjoin cand.path (b "files"))
+  let infoC := dirC fs c.cwd (pjoin cand.path (b "info"))
+  let fs ← read
+  let loc := originalLocation fs c.cwd path cand
+  let content := formatTrashinfoWith loc c.dateStr
+  let srcStr := normpath path
+  putCore infoC filesC (basename loc) content
+    (fun fs' => if pIsmount fs' c.cwd srcStr then .error .EBUSY else resolve fs' c.cwd srcStr) st
+
+theorem no_dangling_link_canonical (φ : Oracle) (c : PutCfg) (path volume : Bytes) (cand : Candidate) (st : PutSt)
+    (s : RunState)
+    (h1 : danglingOnPath s.fs c.cwd cand.path = none)
+    (h2 : danglingOnPath (run φ (mkdirP (dirC s.fs c.cwd cand.path) 0o700) s).2.fs c.cwd
+            (pjoin cand.path (b "files")) = none)
+    (h3 : let s1 := (run φ (mkdirP (dirC s.fs c.cwd cand.path) 0o700) s).2
+          danglingOnPath (run φ (mkdirP (dirC s1.fs c.cwd (pjoin cand.path (b "files"))) 0o700) s1).2.fs c.cwd
+            (pjoin cand.path (b "info")) = none) :
+    run φ (trashFileIn c path volume cand st) s = run φ (trashFileInCanon c path volume cand st) s := by
+  rw [trashFileIn, trashFileInCanon, run_read_bind, run_read_bind]
+  cases securityCheck s.fs c.cwd cand with
+  | some r => rfl
+  | none =>
+    cases gateCheck s.fs c volume cand with
+    | some r => rfl
+    | none =>
+      simp only []
+      rw [run_bind, run_bind, no_dangling_link_mkdirP φ _ _ _ s h1]
+      simp only [] at h3
+      generalize run φ (mkdirP (dirC s.fs c.cwd cand.path) 0o700) s = r1 at h2 h3
+      obtain ⟨res1, s1⟩ := r1
+      cases res1 with
+      | error e => rfl
+      | ok u =>
+        simp only [] at h2 h3 ⊢
+        rw [run_read_bind, run_bind, run_bind, no_dangling_link_mkdirP φ _ _ _ s1 h2]
+        generalize run φ (mkdirP (dirC s1.fs c.cwd (pjoin cand.path (b "files"))) 0o700) s1 = r2 at h3
+        obtain ⟨res2, s2⟩ := r2
+        cases res2 with
+        | error e => rfl
+        | ok u =>
+          simp only [] at h3 ⊢
+          rw [run_read_bind, run_bind, run_bind, no_dangling_link_mkdirP φ _ _ _ s2 h3]
+          generalize run φ (mkdirP (dirC s2.fs c.cwd (pjoin cand.path (b "info"))) 0o700) s2 = r3
+          obtain ⟨res3, s3⟩ := r3
+          cases res3 <;> rfl
+
+/-! non-vacuity: concrete worlds, evaluated through the twins of Proofs/C16Eval.lean -/
+
+namespace Ex
+open TrashVerif.Proofs.C16Eval
+
+def dN : Node := .dir 0o755 0
+/-- `/t` is a symbolic link to `/nowhere`, which does not exist; `/x` is a regular file; one volume -/
+def fsDangling : FS := FS.ofList [([], dN), ([b "t"], .link (b "/nowhere")), ([b "x"], .file [120] 0o644 0)] [[]]
+def cfg : PutCfg := { cwd := [], env := {}, uid := 0, dateStr := b "D" }
+/-- `--trash-dir /t` -/
+def candT : Candidate := { path := b "/t", volume := b "/", relative := true, topCheck := false, gate := .sameVolume }
+/-- `--trash-dir /t/sub`: the dangling link is a proper prefix -/
+def candTSub : Candidate := { path := b "/t/sub", volume := b "/", relative := true, topCheck := false, gate := .sameVolume }
+
+theorem hyps_T : securityCheck fsDangling cfg.cwd candT = none ∧ gateCheck fsDangling cfg (b "/") candT = none ∧
+    danglingOnPath fsDangling cfg.cwd candT.path = some .EEXIST := by
+  rw [securityCheck_eq, gateCheck_eq, danglingOnPath_eq]; decide +kernel
+
+theorem hyps_TSub : securityCheck fsDangling cfg.cwd candTSub = none ∧ gateCheck fsDangling cfg (b "/") candTSub = none ∧
+    danglingOnPath fsDangling cfg.cwd candTSub.path = some .ENOENT := by
+  rw [securityCheck_eq, gateCheck_eq, danglingOnPath_eq]; decide +kernel
+
+/-- nothing at `/t` yet, the file `/x`; one volume: the three directories are created -/
+def fsFresh : FS := FS.ofList [([], dN), ([b "x"], .file [120] 0o644 0)] [[]]
+
+theorem hyps_fresh :
+    danglingOnPath fsFresh cfg.cwd candT.path = none ∧
+    danglingOnPath (run noFaults (mkdirP (dirC fsFresh cfg.cwd candT.path) 0o700) { fs := fsFresh }).2.fs cfg.cwd
+      (pjoin candT.path (b "files")) = none ∧
+    (let s1 := (run noFaults (mkdirP (dirC fsFresh cfg.cwd candT.path) 0o700) { fs := fsFresh }).2
+     danglingOnPath (run noFaults (mkdirP (dirC s1.fs cfg.cwd (pjoin candT.path (b "files"))) 0o700) s1).2.fs cfg.cwd
+       (pjoin candT.path (b "info")) = none) := by
+  simp only [danglingOnPath_eq, dirC_eq]; decide +kernel
+
+end Ex
 
 end TrashVerif.Proofs.C07
